@@ -26,6 +26,7 @@ func TestMain(m *testing.M) {
 	vh.Rule("also: the context (own or the connection's) is cancelled from inside the transport's k-th Write of a 2..8 packet request: no further write reaches the transport and the error wraps context.Canceled; Conn.Close after a logical channel with a lower id was closed on its own (gap in the ids); with overlapping Close calls, the closed condition is checked the moment any of them returns")
 	vh.Rule("also: after every send with an already cancelled context the next request (live context) is sent: the transport sees that request and nothing of the cancelled one; Channel.Reset() called before cancel / Close at any fill level returns at once")
 	vh.Rule("also: caller contexts made with WithCancelCause / WithTimeoutCause (the error still wraps ctx.Err()); the main channel closed by the application before Conn.Close; parked requests of 1..3 packets, on logical channels and on the main channel (the scripted peer answers a logout that arrives appended to the other goroutine's message)")
+	vh.Rule("also: the reader parked on the channel's full ERROR queue (more unparsable responses than the queue of 10 holds, errors never fetched), main and logical channels, with and without packages of an abandoned response still queued, closed through the channel or the connection, peer answering the logout at once or late: Close returns within 5 s, later calls report ErrChannelClosed, the reader ends with the connection")
 	vh.Main(m, "C13")
 }
 
